@@ -431,8 +431,29 @@ def history(ctx, t, seed, steps):
     rng = random.Random(seed)
     a = gen.random_attrs(t, rng)
     m = Message(t, **a)
+    born = rng.choice(('ctor', 'ctor', 'from_dict(dict())', 'from_dict(json)', 'from_str', 'from_bytes', 'copy', 'pickle'))
+    try:
+        # the same message, come into being another way: its later life is the same
+        if born == 'from_dict(dict())':
+            m = Message.from_dict(m.dict())
+        elif born == 'from_dict(json)':
+            import json
+            m = Message.from_dict(json.loads(json.dumps(m.dict())))
+        elif born == 'from_str':
+            m = Message.from_str(str(m))
+        elif born == 'from_bytes':
+            m = Message.from_bytes(m.bytes())
+        elif born == 'copy':
+            m = m.copy()
+        elif born == 'pickle':
+            import pickle
+            m = pickle.loads(pickle.dumps(m))
+    except Exception as exc:
+        ctx.fail('documented value accepted', f'history:born:{born}:{type(exc).__name__}', {'kind': 'history', 'type': t, 'seed': seed, 'steps': steps},
+                 f'{type(exc).__name__}: {exc}')
+        return
     model = {'type': t, 'time': 0, **a}
-    case = lambda: {'kind': 'history', 'type': t, 'seed': seed, 'steps': steps}  # noqa: E731
+    case = lambda: {'kind': 'history', 'type': t, 'seed': seed, 'steps': steps, 'born': born}  # noqa: E731
     names = list(midi1.ATTRS[t]) + ['time']
     log = []
     for i in range(steps):
